@@ -344,33 +344,53 @@ MANIFEST_TEXT["C19"] = {
 PROPS["C11"] = {
     "lean_modules": ["EcModel.Props.C11"],
     "harness": ["c11"],
-    "t1_facts": ["wkc", "WkcSites", "WrappedRead", "WrappedWrite", "ReceivedPdu::wkc", "RegisterAddress", "AlControl packed length", "push_state_checks"],
+    "t1_facts": ["wkc", "WkcSites", "WrappedRead", "WrappedWrite", "ReceivedPdu::wkc", "RegisterAddress", "AlControl packed length", "push_state_checks", "EEPROM provider call sites", "EEPROM range call sites", "WkcEeprom"],
     "modelled": "ReceivedPdu::{wkc, maybe_wkc}; WrappedRead::{new, ignore_wkc, with_wkc, receive, receive_slice, receive_wkc}; "
                 "WrappedWrite::{new, ignore_wkc, with_wkc, send, send_receive, send_receive_slice}; SubDeviceRef::{register_read, "
                 "register_write, state, status (incl. the poll order of futures_lite::try_zip), wait_for_state, "
                 "request_subdevice_state_nowait}; DeviceEeprom::{wait_while_busy, read_chunk, write_word, clear_errors}; "
                 "Coe::{wait_for_mailboxes, wait_for_mailbox_response} and the exchange part of mailbox_write_read; "
                 "MainDevice::wait_for_state; SubDeviceGroup::{is_state, wait_for_state, transition_to, request_into_op} "
-                "(GroupState.lean); TimeoutFuture (deadline before inner future)",
+                "(GroupState.lean); TimeoutFuture (deadline before inner future); the multi-datagram EEPROM paths above the "
+                "provider, trace-driven (WkcEeprom.lean): EepromRange::{new, word_pos, skip_ahead_bytes}, <EepromRange as Read>::read "
+                "(clear_errors + the 4/8-byte chunk loop with odd-start skip, every provider call `.await?`), embedded-io-async "
+                "read_exact / write_all, <EepromRange as Write>::write (word loop), SubDeviceEeprom::{start_at, category, fmmus, "
+                "set_station_alias}, SubDevice::{eeprom_read_raw, eeprom_read::<T>, eeprom_write_dangerously::<T>, set_alias_address}",
     "rule": "corpus first (every composite path healthy / first checked datagram unanswered / an exempt datagram unanswered / "
-            "device dropped out / frame lost, and the former witnesses of the repaired status-poll gap), then random cases, half of them builder methods "
+            "device dropped out / frame lost, and the former witnesses of the repaired status-poll gap; for ten multi-chunk EEPROM "
+            "sequences (12/13/40/9-byte raw reads, 12/16-byte typed reads, 6- and 16-entry FMMU categories, a 3-word write, "
+            "set_station_alias) a fault at EVERY datagram position x {counter 0, counter 2, addressed device drops out, frame lost "
+            "before/after the devices}, led by the drop-out after the first chunk of a 12-byte raw read and of the FMMU category "
+            "read), then random cases, half of them builder methods "
             "(receive, receive_slice, send, send_receive, send_receive_slice on FPRD/APRD/BRD/FRMW/FPWR/APWR/BWR/LWR/LRW with "
             "expected = default / ignore_wkc / with_wkc(0..3)) against 0-4 bare devices (absent addresses, duplicate station "
             "addresses => counter 2, broadcasts => counter n) with the wire setting/incrementing the counter or losing the frame; "
             "half composite paths on a network brought up by the real MainDevice::init (register_read/write, status with and "
             "without error indication, DeviceEeprom read_chunk/write_word/clear_errors with busy/busy-forever/command-error "
             "scripts, sdo_read/sdo_write with response delays and a stale out-mailbox, PreOp->..->Op group transition, "
-            "request_into_op, MainDevice::wait_for_state) with 0-2 scripted faults at random datagram ordinals (counter set to "
+            "request_into_op, MainDevice::wait_for_state; and the multi-datagram EEPROM paths: eeraw = SubDevice::eeprom_read_raw "
+            "or start_at+skip_ahead_bytes+one EepromRange::read over the real DeviceEeprom with 0..40 bytes, odd/even word and "
+            "byte starts, windows shorter/longer than the buffer and at the top of the address space; eetyped = "
+            "eeprom_read::<[u8; 1..40]>; eefmmus = SubDeviceEeprom::fmmus on a rewritten category area with 0-2 foreign categories "
+            "and an FMMU category of 0..11 words; eewrite = eeprom_write_dangerously::<u8|u16|u32|u64> or write_all of 1..12 bytes; "
+            "eealias = set_station_alias; 4- and 8-byte SII reads, 0-2 busy polls per command, busy-forever / command-error / "
+            "error-flag quirks) with 0-2 scripted faults at random datagram ordinals (for the EEPROM paths mostly ONE fault at a "
+            "uniformly drawn position of the whole multi-chunk sequence, biased to the addressed device dropping out) (counter set to "
             "0/2/0..3, +1, frame lost before/after the devices, device forgets its station address). The case line is the trace of "
             "datagrams as delivered (payload + counter), the model must predict the result token from it. Monitor (independent "
             "table of which command/register/phase must be checked): Ok while a datagram the property requires to be checked came "
             "back with another counter; WorkingCounter error whose counts are not those of a delivered datagram; accepted counter "
-            "but error; returned bytes differ from the delivered / stored ones. non-trivial = case in which some datagram came "
+            "but error; returned bytes differ from the delivered / stored ones; for the EEPROM paths also: Ok with fewer bytes / "
+            "FMMU entries than requested and inside the window (c11/short-read-reported-complete), returned bytes that are not the "
+            "concatenation of the payloads of the serviced data reads (c11/eeprom-bytes-not-delivered), bytes / entries that differ "
+            "from the device's image on an unaltered wire (c11/eeprom-data-not-from-device). non-trivial = case in which some datagram came "
             "back with a counter other than 1 or was lost; distinct = distinct case line",
     "assumptions": [
         "one MainDevice task (responses are matched to requests: C01); retries disabled (RetryBehaviour::None, the default)",
         "the CoE layer above the mailbox exchange (header parsing, segmentation) is C15/C16: sdo_checked is about the raw response handed to it",
         "group transitions: a status poll placed behind one that reports another state in the same frame is never read by is_state (nothing of it is used); the monitor only judges polls that were read",
+        "EEPROM paths: the SII command writes (FPWR 0x0502 read/write request, FPWR 0x0508 data) go through WrappedWrite::send, the documented exempt write; required are the status polls, the data reads and the error-reset write-and-read-back of clear_errors",
+        "EEPROM paths: chunk payloads are whatever the data read delivered (any length in the model; 4 or 8 bytes from the real provider); the parsers above fmmus (strings, PDOs, sync managers) are C12/C13",
     ],
 }
 
@@ -389,7 +409,21 @@ MANIFEST_TEXT["C11"] = {
             "opt-out breaks the obligation (incl. rawPduSitesChecked: is_state applies ReceivedPdu::wkc(1) itself); checked_methods — "
             "exactly receive, receive_slice, send_receive, send_receive_slice pass through maybe_wkc(self.wkc). Group transitions: "
             "group_transition_checked (Ok ends on a round whose status datagrams all carried counter 1), "
-            "group_poll_mismatch_is_error, group_status_poll_former_witnesses (the inputs of the repaired gap).",
+            "group_poll_mismatch_is_error, group_status_poll_former_witnesses (the inputs of the repaired gap). Multi-datagram EEPROM "
+            "paths, by induction over the chunk / word loops for every length, window, start parity, chunk size and trace: "
+            "eeprom_range_read_checked (EepromRange::read returns Ok only with min(n, window) bytes - never fewer -, after a "
+            "clear_errors and chunk reads in every one of which all status polls and the data read had counter 1, and the bytes are "
+            "gathered from exactly those data reads' payloads), eeprom_raw_read_checked / eeprom_typed_read_checked / "
+            "eeprom_typed_read_never_short (eeprom_read_raw, eeprom_read::<T> and the other read_exact users), "
+            "eeprom_fault_propagates + eeprom_clear_fault_propagates (after ANY number of healthy chunks that leave the buffer "
+            "unfilled, a status poll at any position / data read / reset read-back with counter r != 1 gives exactly "
+            "WorkingCounter{1, r}, a lost frame Timeout(Pdu), the deadline Timeout(Eeprom); never Ok with the bytes so far), "
+            "eeprom_fault_after_k_chunks (the same for the public entry points, 4/8-byte chunks, every k with L*k < n), "
+            "eeprom_healthy_read_returns_all (other direction), eeprom_fmmus_checked / eeprom_fmmus_fault_propagates (category "
+            "search + one read: as many entries as the category holds, or the error), eeprom_write_all_checked / "
+            "eeprom_write_fault_propagates / write_word_poll_mismatch (all ceil(n/2) words acknowledged by a counter-1 poll; stops "
+            "at the first failing word after any k), eeprom_error_paths (T1: every provider call above the provider is `.await?`, "
+            "every range call is `?` / tail / the two reviewed iterator matches).",
     "note": "Trusted: Lean kernel; hand translation of the paths (validated by diffing the result token on traces recorded from the "
             "real code under scripted wire faults); tools/extract_wkc.py (regex walk). The trace abstraction orders events as "
             "the datagrams are sent; for the two concurrent reads of status() the poll order of try_zip is modelled explicitly. "
@@ -1092,3 +1126,12 @@ PROPS["C02"].setdefault("drivers", {})["c02t"] = "drv_micro"
 PROPS["C02"]["rule"] += (" || c02t: the same with deadlines (retries 0-2, final timeouts at arbitrary points; tasks parked right before "
                          "their retry / release store while RX and TX run on), judged by the buffer-exclusion, lifecycle-order "
                          "(every observed status change is an edge of the documented lifecycle) and store-over-live-state monitors")
+
+# C20 at OS-thread granularity (added after seed C20b: a completed future releasing its slot a second time when dropped)
+PROPS["C20"]["harness"].append("c20m")
+PROPS["C20"].setdefault("drivers", {})["c20m"] = "drv_micro"
+PROPS["C20"]["rule"] += (" || c20m: the schedule-controlled runs of the real PDU loop on OS threads (2-3 application threads, TX, RX; "
+                         "deadlines, retries, drops at arbitrary points; every step = code between two shared accesses), judged by the "
+                         "cross-talk monitors only: a view/iterator never shows data other than what the network returned for ITS request, "
+                         "no data without an accepted response, every observed status change is an edge of the lifecycle (a slot freed or "
+                         "re-queued under another task's live request is how tasks disturb each other), no panic")
